@@ -86,10 +86,15 @@ class PropValue:
             return self.value.dtype.type is self.type.dtype.type
         elif isinstance(self.type, Sequence):
             return isinstance(self.value, list) and all(
-                elem.type._subtype(self.type.elem_type) for elem in self.value
+                elem.type._subtype(self.type.elem_type)
+                and PropValue(self.type.elem_type, elem.value).check()
+                for elem in self.value
             )
         elif isinstance(self.type, Optional):
-            return self.value is None or isinstance(self.value, PropValue)
+            return self.value is None or (
+                isinstance(self.value, PropValue)
+                and PropValue(self.type.elem_type, self.value.value).check()
+            )
         warnings.warn(
             InferenceWarning(
                 f"Unknown or unspecified type for propagated value: {self.type!r}"
